@@ -291,6 +291,10 @@ def presentation(rng, items, idx):
         names = [it['name'] for it in items if it['k'] == 'label']
         rng.shuffle(names)
         preseed = {'labels': dict([(n, rng.randrange(0, 5000) * 2) for n in names] + [('EXT_SYM', 0x20000000)])}
+    elif mode == 4 and idx % 12 == 4 and not any('EXT_SYM' in l for l in lines):
+        # a caller that never passes tables, after an earlier build by such a caller in which this program's label names were constants
+        names = list(dict.fromkeys(it['name'] for it in items if it['k'] == 'label'))
+        preseed = {'notables': True, 'earlier': ''.join('%s = %d\n' % (n, 2 * rng.randrange(1, 600)) for n in names) + 'nop\n'}
     return lines, eol, preseed
 
 
